@@ -249,14 +249,16 @@ class IASolverBaseClass:  # pylint: disable=R0902
         F = to_array_of_arrays(F)
         full_F = to_array_of_arrays(full_F)
 
-        self._clear_precoder_filter()
-
         if P is not None:
             # Store a validated COPY of the power (as the `P` setter does):
             # keeping a reference to the caller's array would let a later
             # in-place change of that array silently change self.P without
-            # invalidating the power-scaled precoders.
+            # invalidating the power-scaled precoders. This is done before
+            # the current precoders are cleared: an invalid power raises and
+            # must leave the solver as it was.
             self._set_P(P)
+
+        self._clear_precoder_filter()
 
         self._full_F = full_F
 
@@ -389,14 +391,15 @@ class IASolverBaseClass:  # pylint: disable=R0902
             numpy array) of one user. This is a 1D numpy array of 2D numpy
             arrays.
         """
-        self._clear_receive_filter()
-
         if W is None and W_H is None:
             raise RuntimeError("Either 'W' or 'W_H' must be provided.")
 
         if W is not None and W_H is not None:
             raise RuntimeError("Either 'W' or 'W_H' must be provided ("
                                "but not both of them.")
+
+        # Only clear the current filters once we know the call is valid
+        self._clear_receive_filter()
 
         self._W = W
         self._W_H = W_H
@@ -583,13 +586,15 @@ class IASolverBaseClass:  # pylint: disable=R0902
             Power of each user. If not provided, a value of 1 will be used
             for each user.
         """
+        # Set (and validate) the power first: an invalid power raises and
+        # must leave the current precoders untouched
+        self.P = P
+
         self._clear_precoder_filter()
 
         if isinstance(Ns, int):
             Ns = np.ones(self.K, dtype=int) * Ns
         assert (not isinstance(Ns, int))
-
-        self.P = P
 
         # Local function that returns a normalized version of the input
         # numpy array
